@@ -21,7 +21,7 @@ NA_TEXT = ('deciding code is text emission through write!/format! into dyn Write
 
 PROPS = {
     'C11': {
-        'units': ['topo', 'deps'],
+        'units': ['topo', 'deps', 'genloop'],
         'title': 'definitions emitted exactly once each and after the definitions they use',
         'technique': 'Verus function contracts + loop invariants + decreases on toposort_impl/inner and sort_by_indices, and contracts on the six '
                      'dependency-collector functions over the real RustType/RustItem definitions, all extracted verbatim',
@@ -93,7 +93,7 @@ PROPS['C06'] = {
     'design_ref': 'DESIGN.md section 5 C06',
 }
 PROPS['C03'] = {
-    'units': ['merge', 'topo', 'tos'],
+    'units': ['merge', 'topo', 'tos', 'genloop'],
     'title': 'exactly the parsed items reach generation (conservation kernel)',
     'technique': 'Verus contracts on ParsedData::push / is_empty / add_assign, TypeShareVisitor::collect_result, the sort block, toposort_impl and '
                  'sort_by_indices: each stage preserves exactly the items (and keeps errors)',
@@ -119,7 +119,7 @@ PROPS['C17'] = {
     'design_ref': 'DESIGN.md section 5 C17',
 }
 PROPS['C07'] = {
-    'units': ['rename', 'topo', 'cfg', 'cfg_all', 'merge', 'write', 'tos', 'deps', 'serdecase', 'recon'], 'kani': ['kint'],
+    'units': ['rename', 'topo', 'cfg', 'cfg_all', 'merge', 'write', 'tos', 'deps', 'serdecase', 'recon', 'genloop'], 'kani': ['kint'],
     'title': 'never panics or spins (kernel)',
     'technique': 'panic-freedom (unwrap/index/slice/overflow/callee preconditions) and termination (decreases) obligations of every function put under '
                  'contract for the other properties, with weakest preconditions (Verus); Kani overflow/cast checks on integer.rs',
@@ -164,6 +164,7 @@ PROPS['C09'] = {
     'bounded': ['recon'],
 }
 PROPS['C07']['units'].append('recon')
+PROPS['C07']['units'].append('genloop')
 PROPS['C03']['bounded'] = ['merge', 'tos']
 PROPS['C06']['bounded'] = ['merge', 'cli_determinism']
 PROPS['C11']['bounded'] = ['topo', 'deps']
